@@ -246,7 +246,7 @@ func runShard(id, tier string, k, n int, dir string) (*WorkerResult, []*Violatio
 	var infra []string
 	var skips []string
 	trace := false
-	for attempt := 0; attempt < 40; attempt++ {
+	for attempt := 0; attempt < 8; attempt++ {
 		os.Remove(out)
 		os.Remove(out + ".hang")
 		args := []string{"worker", id, tier, strconv.Itoa(k), strconv.Itoa(n), out}
@@ -309,7 +309,7 @@ func runShard(id, tier string, k, n int, dir string) (*WorkerResult, []*Violatio
 			Expected: "process survives (no panic in a library goroutine)", Observed: "worker process died: " + crashSummary(logtail), Crash: true, Reproduced: 1})
 		skips = append(skips, sub+"\x00"+key)
 	}
-	infra = append(infra, fmt.Sprintf("worker %d: gave up after 40 restarts", k))
+	infra = append(infra, fmt.Sprintf("worker %d: gave up after 8 restarts (each a crash or hang recorded above)", k))
 	return nil, crashes, infra
 }
 
